@@ -166,7 +166,10 @@ func wfRun(a wfCase, c *eng.Ctx) *eng.Fail {
 	}
 	tw, th := a.TileW, a.TileH
 	if tw == 0 {
-		tw, th = a.W, a.H
+		tw = a.W
+	}
+	if th == 0 {
+		th = a.H
 	}
 	if st.XTsiz != tw || st.YTsiz != th {
 		return eng.Failf(name+"-declares-wrong-tiles", "tile size %dx%d requested %dx%d", st.XTsiz, st.YTsiz, tw, th)
@@ -627,6 +630,17 @@ func c16Streams(c *eng.Ctx) {
 				tw, th := cdiv(sz[0], tx), cdiv(sz[1], ty)
 				for _, lv := range []int{0, 2} {
 					jobs = append(jobs, wfCase{Enc: 7, W: sz[0], H: sz[1], C: 1 + 2*((tx+ty)%2), P: 8, Levels: lv, Layers: 1 + (tx+ty)%2, TileW: tw, TileH: th, K: 1})
+				}
+			}
+		}
+	}
+	// tiling in one direction only (the other tile dimension left 0 = image size)
+	for _, sz := range [][2]int{{96, 40}, {33, 17}, {64, 64}} {
+		for _, t := range []int{8, 32, 11} {
+			for _, lv := range []int{0, 2} {
+				for _, ly := range []int{1, 2} {
+					jobs = append(jobs, wfCase{Enc: 7, W: sz[0], H: sz[1], C: 1, P: 8, Levels: lv, Layers: ly, TileW: t, TileH: 0, K: 101},
+						wfCase{Enc: 7, W: sz[0], H: sz[1], C: 3, P: 8, Levels: lv, Layers: ly, TileW: 0, TileH: t, K: 101})
 				}
 			}
 		}
